@@ -46,7 +46,7 @@ CLAIMED = {
             'text': 'writer fragmentation geometry for every start offset and record length <= 3 blocks (O12.1); a reopened writer starts at file size mod 32768 for every 64-bit size (O12.5); reader reassembly over abstract block-accurate fragment streams: intact or cut at any byte (O12.3), abandoned record prefix + reopened writer (O12.4)',
             'note': B_NOTE + '; byte contents (payload fidelity, CRC) are not represented in Engine B', 'technique': TECH},
     'C15': {'engine': 'engine-b-mirse', 'design_ref': 'DESIGN.md section 4 C15',
-            'text': 'log reader under one fragment with a failing checksum (any position, symbolic lengths): exactly the damaged record is dropped, every other record is returned, alignment is kept (O15.5); a seek into an unreadable table block reports an error every time (O4.3); Version::get reports the read error of the first table that knows the key instead of answering from an older table (O1.5); a compaction fails when a level-0 input cannot be opened (O15.6); Kani: one-record log with one altered byte never yields a foreign record (O15.2), parsers never panic on arbitrary bytes (O15.3), crc masking is a bijection (O15.1)',
+            'text': 'log reader under one fragment with a failing checksum (any position, symbolic lengths): exactly the damaged record is dropped, every other record is returned, alignment is kept (O15.5); a seek into an unreadable table block reports an error every time (O4.3); Version::get reports the read error of the first table that knows the key instead of answering from an older table (O1.5); a compaction fails when a level-0 input cannot be opened (O15.6); a forward scan that runs into an unreadable block must report an error (O15.7) - known finding D12; Kani: one-record log with one altered byte never yields a foreign record (O15.2), parsers never panic on arbitrary bytes (O15.3), crc masking is a bijection (O15.1)',
             'note': B_NOTE + '; corruption is modelled as "BlockRecord::try_from fails for that fragment" with an intact length field; table files and manifests are not covered', 'technique': TECH},
     'C16': {'engine': 'engine-b-mirse', 'design_ref': 'DESIGN.md section 4 C16',
             'text': 'log level and recovery steps: a torn tail is end-of-file and costs only the torn record (O12.3 with the cut inside the last fragment); open restores the maximal sequence over all replayed WALs even if the newest is empty or torn, and reuses only the newest WAL (O2.5b); records appended after a torn tail (O16.2) - known finding D1c; a reopened writer continues at the block position where the file ends (O12.5); a manifest is reused only when reuse is enabled and it is small enough (O2.6)',
